@@ -96,6 +96,61 @@ def parse(text):
                 it.blocks[b] = (body[:-1], body[-1] if body else "return;")
             items.append(it)
         i += 1
+    return disambiguate(items)
+
+
+def disambiguate(items):
+    """rustc prints same-named constants of repeated macro expansions (e.g. two `bits![..]`
+    in one function) under identical paths.  Definitions appear group by group, uses appear
+    in the same order: the k-th definition of a name and the k-th textual use of it inside a
+    function (or every use inside a const item of group k) are renamed `NAME#k`."""
+    import collections
+    tail = lambda n: "::".join(n.split(">::", 1)[1].split("::")) if ">::" in n else n
+    cnt = collections.Counter(tail(i.name) for i in items if i.kind == "const")
+    dups = {t for t, c in cnt.items() if c > 1}
+    if not dups:
+        return items
+    seen = collections.Counter()
+    group_of = {}
+    for it in items:
+        if it.kind == "const" and tail(it.name) in dups:
+            seen[tail(it.name)] += 1
+            group_of[id(it)] = seen[tail(it.name)]
+    by_len = sorted(dups, key=len, reverse=True)
+
+    def rewrite(line, pick):
+        # replace `const <path>::<tail>` occurrences (longest tails first) by `...<tail>#k`
+        out, pos = "", 0
+        for m in re.finditer(r"const ([\w:<>]+)", line):
+            path = m.group(1)
+            hit = None
+            for t in by_len:
+                if path.endswith("::" + t) or path == t:
+                    hit = t
+                    break
+            if hit is None:
+                continue
+            k = pick(hit)
+            out += line[pos:m.end()] + "#%d" % k
+            pos = m.end()
+        return out + line[pos:]
+    for it in items:
+        if it.kind == "const" and id(it) in group_of:
+            g = group_of[id(it)]
+            it.name = it.name + "#%d" % g
+            if it.simple_const is not None:
+                it.simple_const = rewrite("const " + it.simple_const, lambda t: g)[6:]
+            for b in it.order:
+                st, term = it.blocks[b]
+                it.blocks[b] = ([rewrite(x, lambda t: g) for x in st], rewrite(term, lambda t: g))
+        elif it.kind in ("fn", "const"):
+            occ = collections.Counter()
+            def pick(t, occ=occ):
+                occ[t] += 1
+                return occ[t]
+            for b in it.order:
+                st, term = it.blocks[b]
+                it.blocks[b] = ([rewrite(x, pick) for x in st], rewrite(term, pick))
     return items
 
 
